@@ -1,4 +1,311 @@
-(* Model/EnginesV3.v -- engine dispatch for the MQTT v3 codec models (stub, replaced when the model lands) *)
-From MV Require Import Base.Prelude.
-Definition run_v3 (e : N) (c : list (list N)) : list (list N) := [[98]].
+(* Model/EnginesV3.v -- engines of the correspondence check for the MQTT v3.1.1 codec model.
+     run_v3 10 = "dec3"    run_v3 11 = "enc3"    run_v3 12 = "varint"
+
+   Dump grammar (flat, self-delimiting; the same text is printed by dec3 and read by enc3):
+     bool     ::= 0 | 1
+     qos      ::= 0 | 1 | 2
+     str      ::= len b_1 .. b_len
+     opt(X)   ::= 0 | 1 X
+     id       ::= 1..65535
+     packet   ::= 1 connect | 2 connack | 4 id | 5 id | 6 id | 7 id          (CONNECT CONNACK PUBACK PUBREC PUBREL PUBCOMP)
+                | 8 id n (str qos)^n | 9 id n rc^n | 10 id n str^n | 11 id   (SUBSCRIBE SUBACK UNSUBSCRIBE UNSUBACK)
+                | 12 | 13 | 14                                               (PINGREQ PINGRESP DISCONNECT)
+     connect  ::= clean_session keep_alive opt(lastwill) str(client_id) opt(str username) opt(str password)
+     lastwill ::= qos retain str(topic) str(message)
+     connack  ::= return_code(0..6) session_present
+     rc       ::= 0 | 1 | 2 | 128
+     publish  ::= dup retain qos str(topic) opt(id) payload_size
+   (field order = field order of the Rust structs; the packet tag is the MQTT packet type number) *)
+From MV Require Import Base.Prelude Base.Res Base.VarInt Base.Utf8 Model.CodecV3.
+
+(* ------------------------------------------------------------------ printing *)
+Definition dump_str (s : bytes) : list N := len s :: s.
+Definition dump_opt {A} (f : A -> list N) (o : option A) : list N :=
+  match o with None => [0] | Some a => 1 :: f a end.
+Definition dump_id (i : N) : list N := [i].
+
+Definition dump_last_will (w : last_will) : list N :=
+  qos_to_n (lw_qos w) :: b2n (lw_retain w) :: dump_str (lw_topic w) ++ dump_str (lw_message w).
+
+Definition dump_connect (c : connect) : list N :=
+  b2n (c_clean_session c) :: c_keep_alive c ::
+  dump_opt dump_last_will (c_last_will c) ++ dump_str (c_client_id c)
+  ++ dump_opt dump_str (c_username c) ++ dump_opt dump_str (c_password c).
+
+Definition dump_publish (p : publish) : list N :=
+  b2n (p_dup p) :: b2n (p_retain p) :: qos_to_n (p_qos p) ::
+  dump_str (p_topic p) ++ dump_opt dump_id (p_packet_id p) ++ [p_payload_size p].
+
+Definition dump_packet (p : packet) : list N :=
+  match p with
+  | PConnect c => 1 :: dump_connect c
+  | PConnectAck a => [2; reason_to_n (ca_return_code a); b2n (ca_session_present a)]
+  | PPublishAck i => [4; i]
+  | PPublishReceived i => [5; i]
+  | PPublishRelease i => [6; i]
+  | PPublishComplete i => [7; i]
+  | PSubscribe i fs =>
+    8 :: i :: N.of_nat (length fs) :: flat_map (fun f => dump_str (fst f) ++ [qos_to_n (snd f)]) fs
+  | PSubscribeAck i st => 9 :: i :: N.of_nat (length st) :: map sub_rc_byte st
+  | PUnsubscribe i fs => 10 :: i :: N.of_nat (length fs) :: flat_map dump_str fs
+  | PUnsubscribeAck i => [11; i]
+  | PPingRequest => [12]
+  | PPingResponse => [13]
+  | PDisconnect => [14]
+  end.
+
+Definition show_item (it : item) : list N :=
+  match it with
+  | IPacket p rl => 1 :: rl :: dump_packet p
+  | IPublish p payload rl => 2 :: rl :: dump_publish p ++ len payload :: payload
+  | IChunk payload eof => 3 :: b2n eof :: payload
+  end.
+
+(* ------------------------------------------------------------------ parsing (None = not a dump) *)
+Definition parser (A : Type) := list N -> option (A * list N).
+
+Definition p_num (max : N) : parser N :=
+  fun s => match s with v :: r => if v <=? max then Some (v, r) else None | [] => None end.
+Definition p_bool : parser bool :=
+  fun s => match s with 0 :: r => Some (false, r) | 1 :: r => Some (true, r) | _ => None end.
+Definition p_qos : parser qos :=
+  fun s => match s with
+           | 0 :: r => Some (AtMostOnce, r)
+           | 1 :: r => Some (AtLeastOnce, r)
+           | 2 :: r => Some (ExactlyOnce, r)
+           | _ => None
+           end.
+Definition p_id : parser N :=
+  fun s => match s with v :: r => if nz16_ok v then Some (v, r) else None | [] => None end.
+(* raw bytes with a length prefix *)
+Definition p_bytes : parser bytes :=
+  fun s => match s with
+           | n :: r =>
+             if n <=? len r then
+               let (b, r') := split_at n r in
+               if bytes_ok b then Some (b, r') else None
+             else None
+           | [] => None
+           end.
+(* ByteString: must be valid UTF-8 *)
+Definition p_str : parser bytes :=
+  fun s => match p_bytes s with
+           | Some (b, r) => if utf8_valid b then Some (b, r) else None
+           | None => None
+           end.
+Definition p_opt {A} (p : parser A) : parser (option A) :=
+  fun s => match s with
+           | 0 :: r => Some (None, r)
+           | 1 :: r => match p r with Some (a, r') => Some (Some a, r') | None => None end
+           | _ => None
+           end.
+
+Definition pbind {A B} (p : parser A) (k : A -> parser B) : parser B :=
+  fun s => match p s with Some (a, r) => k a r | None => None end.
+Definition pret {A} (a : A) : parser A := fun s => Some (a, s).
+Notation "'let+' x ':=' p 'in' k" := (pbind p (fun x => k))
+  (at level 200, x pattern, p at level 100, k at level 200).
+
+(* n repetitions; n is bounded by the number of numbers left *)
+Fixpoint p_rep {A} (p : parser A) (n : nat) : parser (list A) :=
+  match n with
+  | O => pret []
+  | S k => let+ a := p in let+ l := p_rep p k in pret (a :: l)
+  end.
+Definition p_list {A} (p : parser A) : parser (list A) :=
+  fun s => match s with
+           | n :: r => if n <=? len r then p_rep p (N.to_nat n) r else None
+           | [] => None
+           end.
+
+Definition p_last_will : parser last_will :=
+  let+ q := p_qos in let+ rt := p_bool in let+ t := p_str in let+ m := p_bytes in pret (mkLastWill q rt t m).
+
+Definition p_connect : parser connect :=
+  let+ cs := p_bool in let+ ka := p_num U16MAX in let+ lw := p_opt p_last_will in let+ cid := p_str in
+  let+ u := p_opt p_str in let+ pw := p_opt p_bytes in pret (mkConnect cs ka lw cid u pw).
+
+Definition p_publish : parser publish :=
+  let+ d := p_bool in let+ rt := p_bool in let+ q := p_qos in let+ t := p_str in let+ i := p_opt p_id in
+  let+ ps := p_num U32MAX in pret (mkPublish d rt q t i ps).
+
+Definition p_reason : parser connack_reason :=
+  fun s => match s with
+           | v :: r => match reason_of_n v with Ok x => Some (x, r) | _ => None end
+           | [] => None
+           end.
+
+Definition p_sub_rc : parser sub_rc :=
+  fun s => match s with
+           | 0 :: r => Some (SrcSuccess AtMostOnce, r)
+           | 1 :: r => Some (SrcSuccess AtLeastOnce, r)
+           | 2 :: r => Some (SrcSuccess ExactlyOnce, r)
+           | 128 :: r => Some (SrcFailure, r)
+           | _ => None
+           end.
+
+Definition p_packet : parser packet :=
+  fun s =>
+    match s with
+    | 1 :: r => (let+ c := p_connect in pret (PConnect c)) r
+    | 2 :: r => (let+ rc := p_reason in let+ sp := p_bool in pret (PConnectAck (mkConnectAck rc sp))) r
+    | 4 :: r => (let+ i := p_id in pret (PPublishAck i)) r
+    | 5 :: r => (let+ i := p_id in pret (PPublishReceived i)) r
+    | 6 :: r => (let+ i := p_id in pret (PPublishRelease i)) r
+    | 7 :: r => (let+ i := p_id in pret (PPublishComplete i)) r
+    | 8 :: r => (let+ i := p_id in
+                 let+ fs := p_list (let+ t := p_str in let+ q := p_qos in pret (t, q)) in
+                 pret (PSubscribe i fs)) r
+    | 9 :: r => (let+ i := p_id in let+ st := p_list p_sub_rc in pret (PSubscribeAck i st)) r
+    | 10 :: r => (let+ i := p_id in let+ fs := p_list p_str in pret (PUnsubscribe i fs)) r
+    | 11 :: r => (let+ i := p_id in pret (PUnsubscribeAck i)) r
+    | 12 :: r => Some (PPingRequest, r)
+    | 13 :: r => Some (PPingResponse, r)
+    | 14 :: r => Some (PDisconnect, r)
+    | _ => None
+    end.
+
+(* ------------------------------------------------------------------ dec3 *)
+(* pieces of the stream: cut positions are absolute offsets, forced monotone and clamped *)
+Fixpoint pieces (prev : N) (cuts : list N) (s : bytes) : list bytes :=
+  match cuts with
+  | [] => [s]
+  | c :: r =>
+    let c' := N.max c prev in
+    let k := N.min (c' - prev) (len s) in
+    let (a, b) := split_at k s in
+    a :: pieces c' r b
+  end.
+
+Inductive drain_res :=
+| DNeed (acc : list (list N)) (st : dstate) (buf : bytes)
+| DErr (acc : list (list N))
+| DPanic.
+
+(* call decode until it says "need more" (acc is the reversed list of item fields) *)
+Fixpoint drain (fuel : nat) (max_size min_chunk : N) (st : dstate) (buf : bytes) (acc : list (list N))
+  : drain_res :=
+  match fuel with
+  | O => DPanic
+  | S k =>
+    match decode_step max_size min_chunk st buf with
+    | (Ok None, st', buf') => DNeed acc st' buf'
+    | (Ok (Some it), st', buf') => drain k max_size min_chunk st' buf' (show_item it :: acc)
+    | (Err e, _, _) => DErr ([4; e] :: acc)
+    | (Panic _, _, _) => DPanic
+    end
+  end.
+
+Definition state_tag (st : dstate) : N :=
+  match st with FrameHeader => 0 | Frame _ _ => 1 | PublishHeader _ _ => 2 | PublishPayload _ => 3 end.
+
+Fixpoint feed (max_size min_chunk : N) (ps : list bytes) (st : dstate) (buf : bytes) (acc : list (list N))
+  : list (list N) :=
+  match ps with
+  | [] => rev ([5; len buf; state_tag st] :: acc)
+  | p :: r =>
+    let buf := buf ++ p in
+    match drain (S (S (length buf))) max_size min_chunk st buf acc with
+    | DNeed acc' st' buf' => feed max_size min_chunk r st' buf' acc'
+    | DErr acc' => rev acc'
+    | DPanic => [[9999]]
+    end
+  end.
+
+Definition run_dec3 (c : list (list N)) : list (list N) :=
+  match c with
+  | [[max_size; min_chunk]; cuts; stream] =>
+    if (max_size <=? U32MAX) && (min_chunk <=? U32MAX) && bytes_ok stream
+    then feed max_size min_chunk (pieces 0 cuts stream) FrameHeader [] []
+    else [[97]]
+  | _ => [[97]]
+  end.
+
+(* ------------------------------------------------------------------ enc3 *)
+Definition parse_op (f : list N) : option encoded :=
+  match f with
+  | 1 :: r => match p_packet r with Some (p, []) => Some (EPacket p) | _ => None end
+  | 2 :: 0 :: r => match p_publish r with Some (p, []) => Some (EPublish p None) | _ => None end
+  | 2 :: 1 :: r =>
+    match p_publish r with
+    | Some (p, payload) => if bytes_ok payload then Some (EPublish p (Some payload)) else None
+    | None => None
+    end
+  | 3 :: r => if bytes_ok r then Some (EChunk r) else None
+  | _ => None
+  end.
+
+Fixpoint parse_ops (fs : list (list N)) : option (list encoded) :=
+  match fs with
+  | [] => Some []
+  | f :: r =>
+    match parse_op f, parse_ops r with
+    | Some o, Some os => Some (o :: os)
+    | _, _ => None
+    end
+  end.
+
+(* the size the encoder claims for the packet (remaining length it writes) *)
+Definition size_claim (it : encoded) : N :=
+  match it with
+  | EPacket p => as_u32 (get_encoded_size p)
+  | EPublish p _ => as_u32 (get_encoded_publish_size p)
+  | EChunk _ => 0
+  end.
+
+Fixpoint run_ops (max_size : N) (ep : option N) (dst : bytes) (ops : list encoded) (acc : list (list N))
+  : list (list N) :=
+  match ops with
+  | [] => rev acc
+  | it :: r =>
+    let n := len dst in
+    match encodev max_size ep it dst with
+    | (dst', ep', Ok _) =>
+      run_ops max_size ep' dst' r ((0 :: size_claim it :: skipn (N.to_nat n) dst') :: acc)
+    | (dst', ep', Err e) =>
+      run_ops max_size ep' dst' r ([1; e; len dst' - n] :: acc)
+    | (_, _, Panic _) => [[9999]]
+    end
+  end.
+
+Definition run_enc3 (c : list (list N)) : list (list N) :=
+  match c with
+  | [max_size] :: ops =>
+    if max_size <=? U32MAX then
+      match parse_ops ops with
+      | Some l => run_ops max_size None [] l []
+      | None => [[97]]
+      end
+    else [[97]]
+  | _ => [[97]]
+  end.
+
+(* ------------------------------------------------------------------ varint *)
+Definition run_varint (c : list (list N)) : list (list N) :=
+  match c with
+  | [[n]] =>
+    if n <=? U32MAX then
+      match write_vi n with Ok b => [b] | Err e => [[1; e]] | Panic _ => [[9999]] end
+    else [[97]]
+  | [[]; s] =>
+    if bytes_ok s then
+      match dec_vi_opt s with
+      | Ok (Some (v, consumed)) => [[0; v; consumed]]
+      | Ok None => [[1]]
+      | Err e => [[2; e]]
+      | Panic _ => [[9999]]
+      end
+    else [[97]]
+  | _ => [[97]]
+  end.
+
+(* ------------------------------------------------------------------ dispatch *)
+Definition run_v3 (e : N) (c : list (list N)) : list (list N) :=
+  match e with
+  | 10 => run_dec3 c
+  | 11 => run_enc3 c
+  | 12 => run_varint c
+  | _ => [[98]]
+  end.
+
 Definition oracle_v3 (e : N) (c o : list (list N)) : list (list N) := [[98]].
